@@ -202,6 +202,37 @@ CLAIMS = {
         note="Pairwise distinctness of accessors is argued from the decided ingredients (suffix rules + own position), not enumerated.",
         technique="AST pipeline matcher + regex syntax-tree analysis + kernel fact comparison + CFG must-pass-through + who-may-read rule",
         design="2/C17"),
+    "C18": dict(
+        text="A typing discipline on the NAME argument of every construction site, one admissible class per operation category: "
+             "binary arithmetic/comparison/logical kernels construct unnamed results (15 sites); copy's default, slicing, masking, "
+             "index lists, sort_by, cast, fillna, to_object, unary ops pass the receiver's stored name; writes/promotion never "
+             "store a name; table-scalar copies source names by position; _resolve_binary_name's decision table is evaluated "
+             "exactly over {None, '', 'n', 'm'}^2 (16 cells) and wired to the result column; Table.__init__ saves names before "
+             "copying and restores them by position; >> names a FRESH copy with the dict key; join results take source names "
+             "with matching buffer index; aggregate/window keys and outputs pass through uniquify (shape-checked, sibling-equal).",
+        note="The concrete suffix numbers chosen by uniquify are not decided.",
+        technique="construction-site name provenance + finite abstract evaluation of the naming decision function + sibling comparison",
+        design="2/C18"),
+    "C19": dict(
+        text="Decided clauses of a mostly value-level property: records come from csv.reader(file_obj, delimiter=delimiter) only, "
+             "paths are opened with newline='' and the caller's encoding, both entry branches forward delimiter/has_header, no "
+             "manual splitting; _infer_type's order is blank(stripped) -> int -> float -> stripped text with only ValueError "
+             "caught; the transposition has one column per header cell (range(len(header))), visits every record unfiltered, pads "
+             "short records with None, names columns by the header cell verbatim with inferred dtype, collects them in a list; "
+             "no dict keyed by column names; empty and header-only inputs construct tables from lists.",
+        note="Round-trip faithfulness of cell texts, quoting and unicode is the csv module's run-time behaviour and is not decided.",
+        technique="AST shape matchers + CFG order checks + who-may-call rule for lexing",
+        design="2/C19"),
+    "C20": dict(
+        text="Totality and truthfulness of repr are decided by structural necessary conditions: partial operations on element "
+             "values (int/round/floor) are preceded by a finiteness test; every tail slice x[-e:] has e provably >= 1 on all "
+             "reaching definitions / call sites (x[-0:] would be everything); max()/min()/x[0] over possibly empty sequences are "
+             "guarded; the footer reads len(pv)/pv.shape/pv._dtype and a dtype list computed over ALL columns, homogeneity is "
+             "decided over all columns; the preview is head k + ellipsis + tail k iff len > 2k with exactly one halving of the "
+             "row budget on each path (global default and per-table override); headers show stored names; repr is pure.",
+        note="Totality over arbitrary user objects whose __str__/__eq__ raise, alignment and exact line counts are not decided.",
+        technique="guard/dominance analysis + interprocedural positivity of slice bounds + dataflow provenance of footer inputs + effect summaries",
+        design="2/C20"),
 }
 
 PENDING = "static rules for this property are designed (DESIGN.md section 2) but not yet built in this round; not claimed yet"
